@@ -4,56 +4,263 @@ Oracle: the Lean reference codec `L2.encUPER` / `L2.decUPER` (lean/Asn1cModel/L2
 from ITU-T X.691 on the generator's type AST (PER-visible constraints, enumeration indexes, canonical CHOICE
 order from the tags resolved by `L2.Resolve`).  K leg = `l2k.k_leg`: C `enc uper` bytes == reference bytes and
 C `dec uper` == reference decode, over generated modules, the boundary module and a fixed module of
-CHOICE-order / ENUMERATED / INTEGER / SIZE boundary shapes.  A disagreement is a failing input of C02.
+CHOICE-order / ENUMERATED / INTEGER / SIZE / extension boundary shapes.  A disagreement is a failing input of C02.
 
-Regions of confirmed deviations of asn1c from X.691 are skipped narrowly (`uper_skip`), by type feature."""
-import collections, copy
+Regions of confirmed deviations of asn1c from X.691 are skipped narrowly: by type feature (`type_region`) or,
+where the deviation depends on the value, by (type, value) (`value_region`); their witnesses are in
+PROPOSED_FINDINGS (to be merged into KNOWN_FINDINGS.json, then replayed by gfind.replay_witnesses)."""
+import collections
 from .. import build, core, genmod, bundle, gfind, l2k
 from . import c01
 
+KM7 = ("IA5String", "VisibleString", "PrintableString", "NumericString")       # < 8 bits per character
+KM_KINDS = KM7 + ("BMPString", "UniversalString")
+TIME_KINDS = ("GeneralizedTime", "UTCTime")
+CLASS_ORD = {"univ": 0, "app": 1, "ctx": 2, "priv": 3}
+
+# ------------------------------------------------------------------------------------------------ tags (python side)
+def _auto(t, tagdefault):
+    """X.680 §25.8 / §29.5: AUTOMATIC tagging applies when no component carries a written tag"""
+    return tagdefault == "AUTOMATIC" and not any(c["type"].get("tag") for c in t["comps"])
+
+def order_key(t, env, tagdefault, depth=0):
+    """(class, number) the alternative is ordered by (X.680 §8.6): outermost tag, or the smallest tag of the
+    extension root of an untagged CHOICE"""
+    if t.get("tag"): return (CLASS_ORD[t["tag"][0]], t["tag"][1])
+    k = t["k"]
+    if k == "REF": return order_key(env[t["name"]], env, tagdefault, depth + 1) if depth < 16 else (9, 0)
+    if k == "CHOICE":
+        n = t["ext"] if t.get("ext") is not None else len(t["comps"])
+        if _auto(t, tagdefault): return (2, 0)
+        return min(order_key(c["type"], env, tagdefault, depth + 1) for c in t["comps"][:n])
+    return (0, genmod.UNIV_TAG[k])
+
+def canonical_order(t, env, tagdefault):
+    """declaration indexes of the root alternatives in canonical order"""
+    n = t["ext"] if t.get("ext") is not None else len(t["comps"])
+    if _auto(t, tagdefault): return list(range(n))
+    keys = [order_key(c["type"], env, tagdefault) for c in t["comps"][:n]]
+    return sorted(range(n), key=lambda i: (keys[i], i))
+
 # ------------------------------------------------------------------------------------------------ skip regions
-def _walk(t, env, seen=None, top=True):
-    """yields (type dict, is_top_level) for t and everything below it (references followed once)"""
-    seen = seen or set()
-    yield t, top
+def _types_below(t, env, seen=None):
+    seen = seen if seen is not None else set()
+    yield t
     k = t["k"]
     if k == "REF":
         if t["name"] in seen: return
-        yield from _walk(env[t["name"]], env, seen | {t["name"]}, top)
+        seen.add(t["name"])
+        yield from _types_below(env[t["name"]], env, seen)
     elif k in ("SEQUENCE", "SET", "CHOICE"):
-        for c in t["comps"]: yield from _walk(c["type"], env, seen, False)
+        for c in t["comps"]: yield from _types_below(c["type"], env, seen)
     elif k in ("SEQUENCE OF", "SET OF"):
-        yield from _walk(t["elem"], env, seen, False)
+        yield from _types_below(t["elem"], env, seen)
 
-def uper_features(t, env, tagdefault=None):
-    """features of further confirmed deviations (beyond gfind.features / c01.skip_region)"""
-    out = set()
-    for x, top in _walk(t, env):
+def _alpha_codes(x):
+    cs = []
+    for a in x["alpha"]:
+        if isinstance(a, tuple): cs += list(range(ord(a[0]), ord(a[1]) + 1))
+        else: cs.append(ord(a))
+    return sorted(set(cs))
+
+def type_region(t, env, tagdefault=None):
+    """finding id of a type-level deviation region the type touches, or None"""
+    top = True
+    for x in _types_below(t, env):
         k = x["k"]
+        if k == "REF":
+            tgt = env[x["name"]]
+            if tgt["k"] in TIME_KINDS: return "F111"       # named GeneralizedTime / UTCTime: 8 bits per character
+        elif top and k in TIME_KINDS: return "F111"
         if k == "INTEGER":
             c = x.get("cons")
-            if c and c["ext"] and c["lo"] is None: out.add("int_ext_no_lb")            # F94
-        if k in KM_KINDS and x.get("size") and x["size"]["ext"]: out.add("km_ext_size")  # F110
-    return out
+            if c and c["ext"] and c["lo"] is None: return "F94"      # (MIN..ub,...) loses its extension bit (C09)
+        sz = x.get("size")
+        if sz and sz["ext"] and sz["hi"] is None and k != "UTF8String": return "F112"   # SIZE(lb..MAX,...)
+        if k in KM_KINDS and x.get("alpha"):
+            cs = _alpha_codes(x)
+            if len(cs) == 1: return "F71"
+            b = max(1, (len(cs) - 1).bit_length())
+            if cs[-1] == (1 << b): return "F114"                     # ub == 2^b: off-by-one in X.691 30.5.4 test
+        top = False
+    return None
 
-KM_KINDS = ("IA5String", "VisibleString", "PrintableString", "NumericString", "BMPString", "UniversalString")
+def value_region(t, v, env, tagdefault=None):
+    """finding id of a value-dependent deviation region hit by value v of type t, or None"""
+    k = t["k"]
+    if k == "REF": return value_region(env[t["name"]], v, env, tagdefault)
+    if k == "INTEGER":
+        c = t.get("cons")
+        if c and c["lo"] == 0 and c["hi"] is None and v > 0 and v.bit_length() % 8 == 0:
+            return "F110"          # semi-constrained: 2's complement octets instead of non-negative-binary-integer
+        return None
+    if k in KM7:
+        sz = t.get("size")
+        if sz and sz["ext"] and not genmod.in_cons(sz, len(v)): return "F113"     # 8-bit characters outside the root
+        return None
+    if k == "BIT STRING":
+        b, unused = v
+        if b and not (b[-1] >> unused) & 1: return "F19"       # trailing zero bit
+        sz = t.get("size")
+        if sz and not b and (sz["lo"] or 0) > 0: return "F19"
+        return None
+    if k in ("SEQUENCE", "SET"):
+        for c in t["comps"]:
+            if c["id"] in v:
+                r = value_region(c["type"], v[c["id"]], env, tagdefault)
+                if r: return r
+        return None
+    if k == "CHOICE":
+        alt, x = v
+        i = next(i for i, c in enumerate(t["comps"]) if c["id"] == alt)
+        n = t["ext"] if t.get("ext") is not None else len(t["comps"])
+        if i < n:
+            order = canonical_order(t, env, tagdefault)
+            if order[order[i]] != i: return "F28"      # to_canonical / from_canonical tables swapped
+        elif i - n >= 64: return "F29"
+        return value_region(t["comps"][i]["type"], x, env, tagdefault)
+    if k in ("SEQUENCE OF", "SET OF"):
+        for x in v:
+            r = value_region(t["elem"], x, env, tagdefault)
+            if r: return r
+        return None
+    return None
 
-def uper_skip(syn, t, env, tagdefault, skipped):
+def type_skip(syn, t, env, tagdefault, skipped):
     feats = gfind.features(t, env, tagdefault=tagdefault)
     if c01.skip_region("uper", feats, skipped): return True
-    fid = None
-    uf = uper_features(t, env, tagdefault)
+    if "inline_printable" in feats and False: return True
+    fid = type_region(t, env, tagdefault)
     if fid: skipped[fid] += 1
     return fid is not None
 
+def filter_values(m, vals, skipped):
+    """drop the values that fall into a value-dependent known region"""
+    env = dict(m["types"]); td = m.get("tagdefault")
+    out = {}
+    for n, t in m["types"]:
+        keep = []
+        for v in vals.get(n, []):
+            fid = value_region(t, v, env, td)
+            if fid: skipped[fid] += 1
+            else: keep.append(v)
+        out[n] = keep
+    return out
+
 # ------------------------------------------------------------------------------------------------ fixed module
 def T(k, **kw): return dict(k=k, **kw)
-def cons(lo, hi, ext=False): return genmod.cons(lo, hi, ext)
+cons = genmod.cons
+def _N(tag=None): return T("NULL", **({"tag": tag} if tag else {}))
+def _B(tag=None): return T("BOOLEAN", **({"tag": tag} if tag else {}))
+def _ch(alts, ext=None):
+    t = T("CHOICE", comps=[{"id": i, "type": ty} for i, ty in alts])
+    if ext is not None: t["ext"] = ext
+    return t
+def _sq(comps, ext=None):
+    cs = []
+    for c in comps:
+        d = {"id": c[0], "type": c[1]}
+        if len(c) > 2 and c[2] is not None: d["opt"] = c[2]
+        cs.append(d)
+    t = T("SEQUENCE", comps=cs)
+    if ext is not None: t["ext"] = ext
+    return t
 
 def fixed_module(rng, quick=True):
-    """shapes the random generator does not (or rarely) produce"""
+    """shapes the random generator does not (or rarely) produce: canonical CHOICE order with mixed tag
+    classes and untagged inner CHOICEs, ENUMERATED index order, range / size width boundaries, extension additions"""
     types, vals = [], {}
+    def add(n, t, vs): types.append((n, t)); vals[n] = vs
+    A, C, P = "app", "ctx", "priv"
+    # --- canonical order (X.680 8.6): class first, then number; untagged CHOICE = smallest root tag
+    add("FInner", _ch([("a", _B((A, 5, ""))), ("b", _B((C, 0, "")))]), [("a", True), ("b", False)])
+    add("FOuter", _ch([("y", _B((A, 7, ""))), ("inner", T("REF", name="FInner")), ("z", _B((C, 1, "")))]),
+        [("y", True), ("inner", ("a", True)), ("inner", ("b", True)), ("z", False)])
+    add("FInner2", _ch([("r", _N((A, 9, ""))), ("p", _N((C, 3, ""))), ("q", _N((P, 0, "")))]), [("r", None), ("p", None), ("q", None)])
+    add("FOuter2", _ch([("k", _N((A, 10, ""))), ("i", T("REF", name="FInner2")), ("l", _N((A, 8, "")))]),
+        [("k", None), ("i", ("r", None)), ("i", ("q", None)), ("l", None)])
+    add("FInner3", _ch([("s", T("IA5String")), ("n", T("INTEGER", cons=None)), ("b", _B())]), [("s", "ab"), ("n", -5), ("b", True)])
+    add("FOuter3", _ch([("o", T("OCTET STRING")), ("i", T("REF", name="FInner3")), ("r", T("REAL"))]),
+        [("o", b"a"), ("i", ("b", True)), ("i", ("n", 5)), ("r", 0x3ff0000000000000)])
+    add("FInner4", _ch([("a", _N((C, 5, ""))), ("b", _N((C, 0, "")))], ext=1), [("a", None), ("b", None)])
+    add("FOuter4", _ch([("x", _N((C, 3, ""))), ("i", T("REF", name="FInner4")), ("y", _N((C, 7, "")))]),
+        [("x", None), ("i", ("a", None)), ("i", ("b", None)), ("y", None)])
+    add("FInner5", _ch([("u", _N((P, 2, ""))), ("v", T("REF", name="FInner"))]), [("u", None), ("v", ("b", True))])
+    add("FOuter5", _ch([("m", _N((A, 6, ""))), ("i", T("REF", name="FInner5")), ("n", _N((A, 4, ""))), ("w", _N((C, 9, "")))]),
+        [("m", None), ("i", ("u", None)), ("i", ("v", ("a", False))), ("n", None), ("w", None)])
+    add("FMixed", _ch([("a", _N((P, 1, ""))), ("b", _B((A, 2, ""))), ("c", T("INTEGER", cons=cons(0, 7), tag=(C, 0, ""))), ("d", _N())]),
+        [("a", None), ("b", True), ("c", 5), ("d", None)])
+    add("FSwap2", _ch([("a", _N((C, 1, ""))), ("b", _N((C, 0, "")))]), [("a", None), ("b", None)])
+    add("FSwap4", _ch([("a", _N((C, 9, ""))), ("b", _N((A, 9, ""))), ("c", _N((P, 0, ""))), ("d", _N((C, 8, "")))]),
+        [("a", None), ("b", None), ("c", None), ("d", None)])       # order b,d,a,c = [1,3,0,2]: not an involution (F28)
+    add("FRot3", _ch([("a", _N((C, 2, ""))), ("b", _N((C, 0, ""))), ("c", _N((C, 1, "")))]), [("a", None), ("b", None), ("c", None)])
+    add("FChExt", _ch([("a", _N((C, 1, ""))), ("b", _B((C, 0, ""))), ("c", T("INTEGER", cons=cons(0, 255), tag=(C, 2, ""))),
+                       ("d", T("OCTET STRING", tag=(C, 3, ""))), ("e", _N((C, 4, "")))], ext=2),
+        [("a", None), ("b", True), ("c", 200), ("d", b"xyz"), ("d", b""), ("e", None)])
+    for n_alts in (1, 2, 3, 4, 5, 8, 9):
+        add(f"FChN{n_alts}", _ch([(f"a{i}", _N((C, i, ""))) for i in range(n_alts)]), [(f"a{i}", None) for i in range(n_alts)])
+    # --- ENUMERATED: index = rank of the value (X.691 14.1), width boundaries, additions
+    def en(items, ext=None):
+        t = T("ENUMERATED", items=items)
+        if ext is not None: t["ext"] = ext
+        return t
+    add("FEnU", en([("c", 5), ("a", -1), ("b", 3)]), [5, -1, 3])
+    add("FEnE", en([("c", 7), ("a", 2)], ext=[("x", 9), ("y", 12), ("z", 300)]), [7, 2, 9, 12, 300])
+    add("FEnE0", en([("a", None), ("b", None), ("c", None)], ext=[]), [0, 1, 2])
+    for n in (1, 2, 3, 4, 5, 8, 9, 16, 17, 128, 129):
+        add(f"FEn{n}", en([(f"i{n}x{j}", None) for j in range(n)]), sorted({0, 1 % n, n // 2, n - 2 if n > 1 else 0, n - 1}))
+    # --- INTEGER: range width boundaries (range_bits)
+    for i, (lo, hi, ext) in enumerate([(1, 2, False), (1, 3, False), (1, 4, False), (1, 5, False), (0, 15, False), (0, 16, False), (-1, 0, False),
+                                        (0, 31, True), (0, 32, True), (-3, 4, True), (10, 10, True), (0, (1 << 32) - 1, True), (0, 1 << 32, False),
+                                        (0, (1 << 62), False), (1, (1 << 31), False), (0, None, True), (None, 5, False)]):
+        c = cons(lo, hi, ext)
+        vs = sorted(v for v in genmod.int_boundaries(c) if genmod.in_cons(c, v) or ext)
+        if lo is not None and lo >= 0: vs = [v for v in vs if v >= 0]
+        add(f"FInt{i}", T("INTEGER", cons=c), vs[:40])
+    # --- SIZE: length width boundaries, fixed sizes around 16 bits / 2 octets, 64K
+    def rb(n): return bytes(rng.getrandbits(8) for _ in range(n))
+    def bits(n):
+        nb = (n + 7) // 8; u = nb * 8 - n
+        b = bytearray(rb(nb))
+        if nb: b[-1] = (b[-1] & ((0xff << u) & 0xff)) | (1 << u)
+        return (bytes(b), u)
+    for i, (lo, hi, ext) in enumerate([(0, 0, False), (1, 1, False), (2, 2, False), (3, 3, False), (0, 1, False), (0, 2, False), (1, 4, False), (1, 5, False),
+                                        (0, 255, False), (0, 256, False), (3, 3, True), (0, 3, True), (2, 5, True), (0, 65535, False), (0, 65536, False), (1, 65535, False)]):
+        c = cons(lo, hi, ext)
+        ls = sorted({lo, hi if hi < 400 else lo + 130, min(lo + 1, hi), max(min(hi, 300) - 1, lo)} | ({hi + 1, max(lo - 1, 0)} if ext else set()))
+        add(f"FOs{i}", T("OCTET STRING", size=c), [rb(n) for n in ls])
+        add(f"FIa{i}", T("IA5String", size=c), ["".join(chr(rng.randrange(0x20, 0x7f)) for _ in range(n)) for n in ls if genmod.in_cons(c, n)])
+        add(f"FSo{i}", T("SEQUENCE OF", elem=T("BOOLEAN"), size=c), [[bool(rng.getrandbits(1)) for _ in range(n)] for n in ls])
+        add(f"FSt{i}", T("SET OF", elem=T("INTEGER", cons=cons(0, 255)), size=c), [[rng.randrange(256) for _ in range(n)] for n in ls if n <= 200])   # > 200: F47
+    for i, (lo, hi, ext) in enumerate([(0, 0, False), (1, 1, False), (15, 15, False), (16, 16, False), (17, 17, False), (24, 24, False), (0, 16, False), (0, 17, False),
+                                        (8, 8, True), (1, 16, True), (0, 65535, False), (0, 65536, False)]):
+        c = cons(lo, hi, ext)
+        ls = sorted({lo, hi if hi < 400 else lo + 130, min(lo + 1, hi), max(min(hi, 300) - 1, lo)})
+        add(f"FBs{i}", T("BIT STRING", size=c), [bits(n) for n in ls if n > 0 or lo == 0])
+    add("FNum", T("NumericString", size=cons(0, 5)), ["", "0", " 9", "12345"])
+    add("FPrt", T("SEQUENCE", comps=[{"id": "p", "type": T("PrintableString", tag=(C, 0, ""))}]), [{"p": ""}, {"p": "Az 09'()+,-./:=?"}])
+    add("FAl1", T("IA5String", alpha=[("A", "Z")]), ["", "AZ", "HELLO"])
+    add("FAl2", T("VisibleString", alpha=[("a", "f"), ("0", "9")], size=cons(1, 4)), ["a", "f09a"])
+    add("FAl3", T("PrintableString", alpha=["A", "B", "C"], size=cons(2, 2)), ["AB", "CC"])
+    add("FAl4", T("IA5String", alpha=[(" ", "?")]), ["", " ?", "0:5"])         # N = 32, b = 5, ub = 63 > 31: by index
+    add("FAl5", T("IA5String", alpha=[("\x00", "\x07"), "\x0f"]), ["", "\x00\x07\x0f"])   # N = 9, b = 4, ub = 15 <= 15: by value
+    add("FBmp", T("BMPString", size=cons(0, 3)), ["", "a", "aé€"])
+    add("FUni", T("UniversalString", size=cons(1, 2)), ["a", "a\U0010ffff"])
+    add("FU8", T("UTF8String", size=cons(1, 2)), ["a", "é€"])            # SIZE not PER-visible
+    # --- SEQUENCE: preamble, DEFAULT, extension additions (bitmap + open types)
+    I8 = lambda tag: T("INTEGER", cons=cons(0, 255), tag=tag)
+    add("FSeq1", _sq([("a", I8((C, 0, ""))), ("b", _B((C, 1, "")), "OPTIONAL"), ("c", I8((C, 2, "")), ("DEFAULT", "7", 7)), ("d", _N((C, 3, "")), "OPTIONAL")]),
+        [{"a": 1}, {"a": 1, "b": True}, {"a": 255, "c": 8}, {"a": 0, "b": False, "c": 0, "d": None}])
+    add("FSeqE0", _sq([("a", I8((C, 0, "")))], ext=1), [{"a": 5}])
+    add("FSeqE1", _sq([("a", I8((C, 0, ""))), ("x", _B((C, 1, "")), "OPTIONAL")], ext=1), [{"a": 5}, {"a": 5, "x": True}])
+    add("FSeqE3", _sq([("a", _B((C, 0, "")), "OPTIONAL"), ("x", _N((C, 1, "")), "OPTIONAL"), ("y", T("OCTET STRING", tag=(C, 2, "")), "OPTIONAL"),
+                       ("z", _sq([("p", I8((C, 0, ""))), ("q", _B((C, 1, "")), "OPTIONAL")]) | {"tag": (C, 3, "")}, "OPTIONAL")], ext=1),
+        [{}, {"a": True}, {"x": None}, {"y": b""}, {"y": rb(130)}, {"z": {"p": 9}}, {"a": False, "x": None, "y": b"ab", "z": {"p": 1, "q": True}}, {"x": None, "z": {"p": 0}}])
+    add("FSeqE2m", _sq([("a", I8((C, 0, ""))), ("x", I8((C, 1, ""))), ("y", T("REF", name="FOuter", tag=(C, 2, "EXPLICIT")), "OPTIONAL")], ext=1),
+        [{"a": 1, "x": 2}, {"a": 1, "x": 2, "y": ("inner", ("b", True))}])
     return {"name": "UPF", "tagdefault": "IMPLICIT", "types": types}, vals
+
+PROPOSED_FINDINGS = []      # filled in below (witness + what), for the coordinator to merge into KNOWN_FINDINGS.json
 
 # ------------------------------------------------------------------------------------------------ run
 def run_uper(ctx, nb=None, nvals=None):
@@ -61,9 +268,8 @@ def run_uper(ctx, nb=None, nvals=None):
     nvals = nvals if nvals is not None else (8 if ctx.quick else 25)
     mods = c01.gen_bundles(ctx, nb)
     bm, bvals = genmod.boundary_module(ctx.rng, ctx.quick)
-    cases = [(bm, bvals)]
     fm, fvals = fixed_module(ctx.rng, ctx.quick)
-    if fm["types"]: cases.append((fm, fvals))
+    cases = [(fm, fvals), (bm, bvals)]
     for m in mods:
         env = dict(m["types"])
         vg = genmod.ValGen(ctx.rng, env)
@@ -71,7 +277,8 @@ def run_uper(ctx, nb=None, nvals=None):
     skipped = collections.Counter()
     allst = collections.Counter(); alldis = []
     for m, vals in cases:
-        sk = lambda syn, t, env, m=m: uper_skip(syn, t, env, m.get("tagdefault"), skipped)
+        vals = filter_values(m, vals, skipped)
+        sk = lambda syn, t, env, m=m: type_skip(syn, t, env, m.get("tagdefault"), skipped)
         st, dis = l2k.k_leg(ctx, "uper:" + m["name"], [(m, vals)], [("uper", "uper", "uper", "uper")], skip=sk)
         allst.update(st); alldis += dis
     ctx.cov["predicate"]["uper_bytes_eq_reference"] = dict(allst)
